@@ -16,12 +16,10 @@ import (
 	"fmt"
 	"sort"
 	"strconv"
-	"strings"
 	"sync"
 	"time"
 
 	"github.com/btcsuite/btcd/blockchain"
-	"github.com/btcsuite/btcd/btcec"
 	"github.com/btcsuite/btcd/chaincfg"
 	"github.com/btcsuite/btcd/chaincfg/chainhash"
 	"github.com/btcsuite/btcd/txscript"
@@ -31,15 +29,12 @@ import (
 	wire_bch "github.com/gcash/bchd/wire"
 	"github.com/polynetwork/poly/common"
 	cstates "github.com/polynetwork/poly/core/states"
-	"github.com/polynetwork/poly/core/types"
 	"github.com/polynetwork/poly/native/service/cross_chain_manager/btc"
 	scom "github.com/polynetwork/poly/native/service/cross_chain_manager/common"
 	"github.com/polynetwork/poly/native/service/governance/side_chain_manager"
 	"github.com/polynetwork/poly/native/service/utils"
-	"verif.local/engine/ev"
 	"verif.local/engine/lib/ccm"
 	"verif.local/engine/lib/hsenv"
-	"verif.local/engine/mc"
 	"verif.local/engine/polyenv"
 )
 
@@ -224,517 +219,3 @@ func dumpGet(d polyenv.Dump, k string) string {
 	}
 	return ""
 }
-
-// ---------------------------------------------------------------------------------------------
-
-type hstate struct {
-	d     polyenv.Dump
-	path  string          // withdrawal history so far (ids are derived from it)
-	spent map[string]bool // reference model: outpoints selected by any earlier withdrawal
-	last  *stepObs        // observation of the transition that produced this state
-}
-
-type stepObs struct {
-	Amount   uint64
-	OK       bool
-	Err      string
-	Panic    string
-	RawTx    string
-	Amts     []uint64
-	VoteErrs []string
-}
-
-type hviol struct {
-	Seed    []coin   `json:"deposits_in_order"`
-	FeeRate uint64   `json:"fee_rate"`
-	MC      uint64   `json:"min_change"`
-	History []string `json:"withdrawal_amounts"`
-	What    string   `json:"what"`
-	Detail  any      `json:"detail"`
-	rank    [3]int
-}
-
-type hstats struct {
-	mu                                                 sync.Mutex
-	states, transitions, maxDepth                      int
-	ok, fail, exact, change, configs, deposits, panics int64
-	failWhy                                            map[string]int64
-	cases                                              map[string]bool
-	viols                                              map[string]*hviol
-	samples                                            []any
-	panicSample                                        []*hviol
-}
-
-func (s *hstats) viol(key string, v *hviol) {
-	s.mu.Lock()
-	defer s.mu.Unlock()
-	if o, ok := s.viols[key]; ok {
-		for i := 0; i < 3; i++ {
-			if o.rank[i] != v.rank[i] {
-				if o.rank[i] < v.rank[i] {
-					return
-				}
-				break
-			}
-		}
-		if o.rank == v.rank {
-			return
-		}
-	}
-	s.viols[key] = v
-}
-
-func (e *henv) withdrawTxs(path string, amount uint64) []*types.Transaction {
-	id := sha256.Sum256([]byte("c26-withdraw/" + path))
-	args := sinkBytes(func(s *common.ZeroCopySink) {
-		s.WriteVarBytes([]byte(e.v.Payee))
-		s.WriteUint64(amount)
-		s.WriteVarBytes(e.v.Redeem)
-	})
-	extra := ccm.MsgBytes(ccm.Msg(id[:], id[:], fromContract, btcChain, []byte("btc"), "unlock", args))
-	var txs []*types.Transaction
-	for i := 0; i < ccm.Quorum(len(e.env.Vals)); i++ {
-		txs = append(txs, ccm.VoteImport(srcChain, 500, extra, e.env.Vals[i], e.nn()))
-	}
-	return txs
-}
-
-// runConfig explores every history of <= depth withdrawals (amount alphabet) from one seeded world.
-func (e *henv) runConfig(r *ev.Run, st *hstats, sim *hsenv.Sim, base polyenv.Dump, p hparam, seed []coin, cfgRank int, amounts []uint64, depth int) {
-	sim.Load(base)
-	gh := chaincfg.RegressionNetParams.GenesisBlock.Header
-	tip := &gh
-	model := map[string]txo{} // reference: what the deposits must have created
-	var order []string
-	for i, c := range seed {
-		var op string
-		tip, op = e.deposit(sim, tip, rootH+1+uint32(i), i, c)
-		k := byte('S')
-		if c.Kind == "P2WSH" {
-			k = 'W'
-		}
-		model[op] = txo{op, c.V, hex.EncodeToString(e.v.script(k))}
-		order = append(order, op)
-	}
-	init := sim.Dump()
-	uKey, sKey := txoKey(btc.UTXOS, e.v.RK), txoKey(btc.STXOS, e.v.RK)
-	mk := func(hist []string, what string, detail any) *hviol {
-		return &hviol{Seed: seed, FeeRate: p.FeeRate, MC: p.MC, History: append([]string{}, hist...), What: what, Detail: detail,
-			rank: [3]int{len(hist), len(seed), cfgRank}}
-	}
-	// the import path must have recorded exactly the deposits (in order)
-	got := readTxos(dumpGet(init, uKey))
-	if len(got) != len(seed) {
-		r.HarnessError("deposit path recorded %d utxos, expected %d", len(got), len(seed))
-	}
-	for i, g := range got {
-		if g != model[order[i]] {
-			r.HarnessError("deposit %d recorded as %+v, expected %+v", i, g, model[order[i]])
-		}
-	}
-	if len(readTxos(dumpGet(init, sKey))) != 0 {
-		r.HarnessError("stxo record not empty after deposits")
-	}
-	changeScript := hex.EncodeToString(e.v.P2WSH)
-	payeeScript := hex.EncodeToString(e.v.PayeeS)
-
-	cfg := mc.Config[*hstate]{
-		Init:     []*hstate{{d: init, spent: map[string]bool{}}},
-		MaxDepth: depth, Workers: 1,
-		Events: func(s *hstate, d int) []string {
-			out := make([]string, len(amounts))
-			for i, a := range amounts {
-				out[i] = strconv.FormatUint(a, 10)
-			}
-			return out
-		},
-		Key: func(s *hstate) string {
-			return dumpGet(s.d, uKey) + "|" + dumpGet(s.d, sKey)
-		},
-		Step: func(s *hstate, evn string) (*hstate, bool) {
-			amount, _ := strconv.ParseUint(evn, 10, 64)
-			sim.Load(s.d)
-			np := s.path + "/" + evn
-			obs := &stepObs{Amount: amount}
-			txs := e.withdrawTxs(np, amount)
-			var res polyenv.Result
-			for i, tx := range txs {
-				res = sim.Exec(tx, 3, 1000)
-				if i < len(txs)-1 && !res.OK {
-					obs.VoteErrs = append(obs.VoteErrs, fmt.Sprint(res.Err))
-				}
-			}
-			obs.OK = res.OK
-			if res.Err != nil {
-				obs.Err = res.Err.Error()
-			}
-			if res.Panic != nil {
-				obs.Panic = fmt.Sprint(res.Panic)
-			}
-			if res.OK && res.Notify != nil {
-				for _, n := range res.Notify.Notify {
-					sts, ok := n.States.([]interface{})
-					if !ok || len(sts) < 4 || sts[0] != "makeBtcTx" {
-						continue
-					}
-					obs.RawTx, _ = sts[2].(string)
-					obs.Amts, _ = sts[3].([]uint64)
-				}
-			}
-			nx := &hstate{d: sim.Dump(), path: np, spent: s.spent, last: obs}
-			return nx, true
-		},
-		Check: func(prev *hstate, evn string, next *hstate, path []string) {
-			obs := next.last
-			st.mu.Lock()
-			st.transitions++
-			if len(path) > st.maxDepth {
-				st.maxDepth = len(path)
-			}
-			st.mu.Unlock()
-			ub, sb := readTxos(dumpGet(prev.d, uKey)), readTxos(dumpGet(prev.d, sKey))
-			ua, sa := readTxos(dumpGet(next.d, uKey)), readTxos(dumpGet(next.d, sKey))
-			if len(obs.VoteErrs) > 0 {
-				r.HarnessError("a non-deciding vote failed: %v", obs.VoteErrs)
-			}
-			if obs.Panic != "" {
-				st.mu.Lock()
-				st.panics++
-				// the property does not state panic-freedom: counted and reported as an observation only
-				if len(st.panicSample) < 3 {
-					st.panicSample = append(st.panicSample, mk(path, "panic inside the withdrawal transaction", obs.Panic))
-				}
-				st.mu.Unlock()
-				return
-			}
-			if !obs.OK {
-				why := "other"
-				switch {
-				case strings.Contains(obs.Err, "current utxo is not enough"):
-					why = "utxo-not-enough"
-				}
-				st.mu.Lock()
-				st.fail++
-				st.failWhy[why]++
-				st.cases[fmt.Sprintf("h/fail/%s/left%d", why, len(ub))] = true
-				st.mu.Unlock()
-				if why == "other" {
-					r.HarnessError("withdrawal failed for an unexpected reason: %s", obs.Err)
-				}
-				if fmt.Sprint(ub) != fmt.Sprint(ua) || fmt.Sprint(sb) != fmt.Sprint(sa) {
-					st.viol("handler/failed-withdrawal-changed-utxo-or-stxo-record", mk(path, "a rejected withdrawal left a trace in the unspent / spent records", map[string]any{"utxo_before": ub, "utxo_after": ua, "stxo_before": sb, "stxo_after": sa}))
-				}
-				return
-			}
-			// ---- successful withdrawal: decode the raw BTC transaction the contract produced
-			rawb, err := hex.DecodeString(obs.RawTx)
-			mtx := wire.NewMsgTx(wire.TxVersion)
-			if err != nil || obs.RawTx == "" || mtx.BtcDecode(bytes.NewReader(rawb), wire.ProtocolVersion, wire.LatestEncoding) != nil {
-				r.HarnessError("makeBtcTx event without a decodable raw transaction: %q", obs.RawTx)
-			}
-			before := map[string]txo{}
-			for _, u := range ub {
-				before[u.Op] = u
-			}
-			detail := map[string]any{"amount": obs.Amount, "utxo_before": ub, "utxo_after": ua, "stxo_before": sb, "stxo_after": sa, "raw_tx": obs.RawTx}
-			var sel []txo
-			seen := map[string]bool{}
-			var sum uint64
-			bad := false
-			nspent := map[string]bool{}
-			for k := range prev.spent {
-				nspent[k] = true
-			}
-			for i, in := range mtx.TxIn {
-				k := opKey(in.PreviousOutPoint.Hash[:], in.PreviousOutPoint.Index)
-				if seen[k] {
-					st.viol("handler/input-selected-twice-in-one-transaction", mk(path, "the produced transaction spends the same outpoint twice", detail))
-					bad = true
-				}
-				seen[k] = true
-				if prev.spent[k] {
-					st.viol("handler/outpoint-selected-again-in-a-later-withdrawal", mk(path, "an outpoint selected by an earlier withdrawal is selected again", detail))
-					bad = true
-				}
-				nspent[k] = true
-				u, ok := before[k]
-				if !ok {
-					st.viol("handler/input-not-in-unspent-set", mk(path, "an input of the produced transaction is not in the unspent record of the redeem script", detail))
-					bad = true
-					continue
-				}
-				if m, ok := model[k]; !ok || m != u {
-					st.viol("handler/unspent-record-differs-from-deposits", mk(path, "unspent record entry differs from what was deposited", detail))
-					bad = true
-				}
-				if i < len(obs.Amts) && obs.Amts[i] != u.Value || len(obs.Amts) != len(mtx.TxIn) {
-					st.viol("handler/notified-input-amounts-differ-from-unspent-values", mk(path, "the makeBtcTx event reports input amounts that differ from the recorded values", detail))
-				}
-				// the unsigned tx carries the spent output's lock script in the signature-script slot (consumed by MultiSign)
-				if hex.EncodeToString(in.SignatureScript) != u.Script {
-					st.viol("handler/input-script-differs-from-unspent-record", mk(path, "input lock script differs from the recorded one", detail))
-				}
-				sel = append(sel, u)
-				sum += u.Value
-			}
-			next.spent = nspent
-			if len(mtx.TxIn) == 0 {
-				st.viol("handler/transaction-without-inputs", mk(path, "a withdrawal transaction without inputs was produced", detail))
-				return
-			}
-			detail["selected"] = sel
-			detail["sum_of_selected_values"] = sum
-			// unspent' == unspent - selection ; spent' == spent + selection (as multisets)
-			wantU := []string{}
-			for _, u := range ub {
-				if !seen[u.Op] {
-					wantU = append(wantU, fmt.Sprint(u))
-				}
-			}
-			gotU := []string{}
-			for _, u := range ua {
-				gotU = append(gotU, fmt.Sprint(u))
-			}
-			sort.Strings(wantU)
-			sort.Strings(gotU)
-			if strings.Join(wantU, ";") != strings.Join(gotU, ";") {
-				st.viol("handler/unspent-set-not-reduced-by-exactly-the-selection", mk(path, "unspent record after != unspent record before minus the transaction inputs", detail))
-			}
-			wantS, gotS := []string{}, []string{}
-			for _, u := range sb {
-				wantS = append(wantS, fmt.Sprint(u))
-			}
-			for _, u := range sel {
-				wantS = append(wantS, fmt.Sprint(u))
-			}
-			for _, u := range sa {
-				gotS = append(gotS, fmt.Sprint(u))
-			}
-			sort.Strings(wantS)
-			sort.Strings(gotS)
-			if strings.Join(wantS, ";") != strings.Join(gotS, ";") {
-				st.viol("handler/spent-record-not-extended-by-exactly-the-selection", mk(path, "spent record after != spent record before plus the transaction inputs", detail))
-			}
-			if bad {
-				return
-			}
-			// outputs: payee (amount minus the fee share), optional change back to the vault (P2WSH of the redeem script)
-			var payee, change int64
-			nPayee, nChange := 0, 0
-			for _, o := range mtx.TxOut {
-				switch hex.EncodeToString(o.PkScript) {
-				case payeeScript:
-					payee += o.Value
-					nPayee++
-				case changeScript:
-					change += o.Value
-					nChange++
-				default:
-					st.viol("handler/unexpected-output", mk(path, "output to an unknown script", detail))
-				}
-			}
-			detail["payee_output"], detail["change_output"] = payee, change
-			detail["implied_miner_fee"] = int64(sum) - payee - change
-			if nPayee != 1 || nChange > 1 {
-				st.viol("handler/unexpected-output-count", mk(path, "expected one payee output and at most one change output", detail))
-			}
-			// the total the contract worked with is visible as payment + change; if it differs from the real input sum: does it
-			// count unspent outputs that are not inputs of the transaction?
-			shape := ""
-			if reported := int64(obs.Amount) + change; reported != int64(sum) {
-				shape = ":other"
-				if reported < int64(sum) {
-					shape = ":total-below-inputs"
-				}
-				var rest []uint64
-				for _, u := range ub {
-					if !seen[u.Op] {
-						rest = append(rest, u.Value)
-					}
-				}
-				for mask := 1; mask < 1<<len(rest) && reported > int64(sum); mask++ {
-					var x uint64
-					for i := range rest {
-						if mask>>i&1 == 1 {
-							x += rest[i]
-						}
-					}
-					if x == uint64(reported)-sum {
-						shape = ":total-includes-unselected-utxos"
-						break
-					}
-				}
-			}
-			if !(sum == obs.Amount || sum >= obs.Amount+p.MC) {
-				st.viol("handler/input-total-neither-payment-nor-payment-plus-min-change"+shape, mk(path, "sum of the selected inputs is neither the payment nor >= payment + min-change", detail))
-			}
-			if change != int64(sum)-int64(obs.Amount) {
-				st.viol("handler/change-output-ne-inputs-minus-payment"+shape, mk(path, "change output != sum of the selected inputs - payment", detail))
-			}
-			if payee <= 0 || payee > int64(obs.Amount) {
-				st.viol("handler/payee-output-outside-0-payment", mk(path, "payee output is not in (0, payment]", detail))
-			}
-			if int64(sum)-payee-change < 0 {
-				st.viol("handler/outputs-exceed-inputs"+shape, mk(path, "the produced transaction pays out more than its inputs carry (invalid on Bitcoin)", detail))
-			}
-			st.mu.Lock()
-			st.ok++
-			kind := "change"
-			if sum == obs.Amount {
-				st.exact++
-				kind = "exact"
-			} else {
-				st.change++
-			}
-			st.cases[fmt.Sprintf("h/ok/d%d/in%d/%s/left%d", len(path), len(sel), kind, len(ua))] = true
-			if len(st.samples) < 3 && len(path) == 2 {
-				st.samples = append(st.samples, map[string]any{"deposits": seed, "fee_rate": p.FeeRate, "min_change": p.MC, "history": append([]string{}, path...), "selected": sel, "payee": payee, "change": change})
-			}
-			st.mu.Unlock()
-		},
-		Stop: r.Expired,
-	}
-	res := mc.BFS(cfg)
-	st.mu.Lock()
-	st.states += res.States
-	st.configs++
-	st.deposits += int64(len(seed))
-	st.mu.Unlock()
-}
-
-func handlerLevel(r *ev.Run, v *vault) map[string]any {
-	// one validator: the vote router then needs exactly one ImportOuterTransfer per withdrawal (quorum logic is C25's subject)
-	vals := polyenv.Keys(1)
-	polyenv.Setup(0, vals)
-	polyenv.InstallHeightLedger()
-	e := &henv{v: v, env: &hsenv.Env{Vals: vals}, nonce: 5000}
-	polyenv.GlobalHeight = 1
-	const t = 100000
-	values := []uint64{t / 2, t, t * 13 / 10, t * 14 / 10}
-	amounts := []uint64{t / 2, t*8/10 + 1, t, t * 13 / 10, 2 * t, t * 27 / 10} // 130000-80001 = min-change 50000 - 1
-	maxSeed := r.QT(4, 5)
-	depth := 3
-	if r.Thorough() {
-		values = append(values, 4*t+1)
-		amounts = append(amounts, t*4/10)
-	}
-	// fee rate 300 makes a one-P2SH-input transaction cost more than a payment of t (the "loss ratio" rejection regime)
-	params := []hparam{}
-	for _, fr := range []uint64{1, 300} {
-		for _, mcv := range []uint64{2000, t / 2, t * 5 / 2} {
-			params = append(params, hparam{fr, mcv})
-		}
-	}
-	var types []coin
-	for _, val := range values {
-		types = append(types, coin{val, "P2SH"}, coin{val, "P2WSH"})
-	}
-	var seeds [][]coin
-	var gen func(n int, cur []coin, from int)
-	gen = func(n int, cur []coin, from int) {
-		if len(cur) == n {
-			seeds = append(seeds, append([]coin(nil), cur...))
-			return
-		}
-		for i := from; i < len(types); i++ {
-			gen(n, append(cur, types[i]), i)
-		}
-	}
-	for n := 1; n <= maxSeed; n++ {
-		gen(n, nil, 0)
-	}
-	st := &hstats{failWhy: map[string]int64{}, cases: map[string]bool{}, viols: map[string]*hviol{}}
-	type job struct {
-		p    hparam
-		seed []coin
-		rank int
-	}
-	var jobs []job
-	for si, s := range seeds {
-		for pi, p := range params {
-			jobs = append(jobs, job{p, s, si*len(params) + pi})
-		}
-	}
-	workers := 8
-	var wg sync.WaitGroup
-	var mu sync.Mutex
-	next, done := 0, 0
-	capped := false
-	for w := 0; w < workers; w++ {
-		wg.Add(1)
-		go func() {
-			defer wg.Done()
-			sim := hsenv.NewSim()
-			defer sim.Close()
-			bases := map[hparam]polyenv.Dump{}
-			for {
-				mu.Lock()
-				if next >= len(jobs) || capped {
-					mu.Unlock()
-					return
-				}
-				if r.Expired() {
-					capped = true
-					mu.Unlock()
-					return
-				}
-				j := jobs[next]
-				next++
-				mu.Unlock()
-				b, ok := bases[j.p]
-				if !ok {
-					b = e.buildBase(sim, j.p)
-					bases[j.p] = b
-				}
-				e.runConfig(r, st, sim, b, j.p, j.seed, j.rank, amounts, depth)
-				mu.Lock()
-				done++
-				mu.Unlock()
-			}
-		}()
-	}
-	wg.Wait()
-	if capped {
-		r.Capped(fmt.Sprintf("handler level: deadline hit after %d of %d configurations", done, len(jobs)))
-	}
-	r.Evals(st.transitions)
-	for k := range st.cases {
-		r.Case(k)
-	}
-	note := func(name string, n int64) {
-		if n > 0 {
-			r.Class(name)
-		}
-		r.Note("count:"+name, n)
-	}
-	note("handler:withdrawal-ok", st.ok)
-	note("handler:withdrawal-rejected", st.fail)
-	note("handler:total-exact", st.exact)
-	note("handler:total-with-change", st.change)
-	for k, n := range st.failWhy {
-		note("handler:rejected:"+k, n)
-	}
-	note("handler:panic", st.panics)
-	if len(st.panicSample) > 0 {
-		r.Note("handler_panics_observed", st.panicSample)
-	}
-	for _, s := range st.samples {
-		r.Sample(s)
-	}
-	keys := make([]string, 0, len(st.viols))
-	for k := range st.viols {
-		keys = append(keys, k)
-	}
-	sort.Strings(keys)
-	for _, k := range keys {
-		r.Violation(k, st.viols[k])
-	}
-	return map[string]any{
-		"states": st.states, "transitions": st.transitions, "traces_validated_against_impl": st.transitions, "max_depth": st.maxDepth,
-		"handler_configurations": st.configs, "handler_deposits_through_spv_import": st.deposits,
-		"handler_seed_sets": len(seeds), "handler_params": params, "handler_amount_alphabet": amounts, "handler_seed_values": values,
-		"handler_max_seed_utxos": maxSeed,
-	}
-}
-
-var _ = btcec.S256
